@@ -828,8 +828,8 @@ def gen_gauss(r):
         if c < 0.22:
             b = r.choice(vals)
             fn = r.choice(["add", "add", "add", "sub"])
-            if fn == "sub" and (has_delta(a) or has_delta(b)):
-                fn = "add"  # (-inf) - (-inf) is an arithmetic edge case (nan), not a rewrite question
+            if fn == "sub" and has_delta(b):
+                fn = "add"  # (-inf) - (-inf) and x - (-inf) are arithmetic edge cases, not rewrite questions
             out = g.emit({"op": "binary", "fn": fn, "a": a, "b": b})
         elif c < 0.27:
             if not has_delta(a):
@@ -890,6 +890,8 @@ def gen_gauss(r):
                 integrand = g.emit({"op": "evreduce", "fn": "sum", "a": integrand, "axis": None})
             if integrand:
                 ivars = [n]
+                if r.random() < 0.4:
+                    ivars = list(real_in)  # every real input of the measure at once
                 if int_in and r.random() < 0.3:
                     ivars.append(r.choice(int_in))  # a batch input summed out by the same Integrate
                 out = g.emit({"op": "integrate", "a": a, "b": integrand, "vars": ivars})
@@ -1174,6 +1176,21 @@ def corpus(r):
                 if kind in ("delta", "joint"):
                     g.emit({"op": "reduce_real", "fn": "logaddexp", "a": ind, "vars": ["x"]})
         out.append((g.program, "log"))
+    # 14. a Gaussian integrated against a Gaussian integrand over the same real inputs listed in another order
+    g = Gen(r, family="log", max_event=0, real_vars=False)
+    reals = [["x", []], ["y", [2]]] if r.random() < 0.5 else [["x", []], ["z", []]]
+    dim = sum((int(np.prod(sh)) if sh else 1) for _, sh in reals)
+    bt = [[b0, g.sizes[b0]] for b0 in r.sample(NAMES[:2], r.choice([0, 1]))]
+    nbt = int(np.prod([sz for _, sz in bt])) if bt else 1
+    mk = lambda rs, batch, nb: g.emit({"op": "gaussian", "batch": batch, "reals": rs, "mats": [round(r.gauss(0, 1), 3) for _ in range(nb * dim * dim)], "locs": [round(r.gauss(0, 1), 3) for _ in range(nb * dim)]})  # noqa: E731
+    meas = mk(reals, bt, nbt)
+    integ = mk(list(reversed(reals)), [], 1)
+    integ_b = mk(list(reversed(reals)), bt, nbt)
+    for ig in (integ, integ_b):
+        if meas and ig:
+            g.emit({"op": "integrate", "a": meas, "b": ig, "vars": [n for n, _ in reals]})
+            g.emit({"op": "integrate", "a": meas, "b": ig, "vars": [n for n, _ in reals] + [b0 for b0, _ in bt]})
+    out.append((g.program, "log"))
     # 13. sums of two weighted Gaussians sharing a real input, marginalised (the mixture-times-mixture contraction)
     g = Gen(r, family="log", max_event=0, real_vars=False)
     b = r.choice(NAMES[:2])
